@@ -58,6 +58,13 @@ class Lin:
                 r = self._canon_kw(x)
                 if r is not None:
                     return r
+            if h == "call" and len(x[3]) > 1:
+                # named keyword arguments in any order denote the same call: sorted by name, `**` splats kept after them in their own order
+                named = sorted(((k, v) for k, v in x[3] if k is not None), key=lambda kv: kv[0])
+                splat = [(k, v) for k, v in x[3] if k is None]
+                kws = tuple(named + splat)
+                if kws != tuple(x[3]) and len({k for k, _ in named}) == len(named):
+                    return ("call", x[1], x[2], kws)
             if h == "boolop" and x[1] == "or" and len(x[2]) == 2 and x[2][1] in (("dict", ()), ("tuple", ()), ("const", None)):
                 return x[2][0]
             if h == "ifexp" and x[1][0] == "call" and x[1][1] == ("name", "jax.numpy.shape"):
